@@ -7,7 +7,7 @@
 //! Hand-written groups: Reduced ring elements, Sign multiplication, sqr/cubic/pow vs operator
 //! chains, Context methods vs FBig operators, clone / clone_from independence.
 
-use crate::core::{guard, Ctx, Rec};
+use crate::core::{guard, Ctx, Rec, Tier};
 use crate::fref::*;
 use crate::h::unflatten;
 use crate::uni::*;
@@ -284,7 +284,7 @@ fn run_family_sweep(ctx: &mut Ctx, name: &str, forms: &[&Form], vals: &[Val], ki
 }
 
 pub fn run(ctx: &mut Ctx) {
-    ctx.rule = "the form table is generated from the rustdoc JSON of the tree (every impl of an operator / dashu_base ops trait on UBig, IBig, RBig, Relaxed, FBig and primitives: owned/borrowed operands, assign forms, mixed types); forms are grouped into families (operation, output type) and for EVERY ordered operand pair of the universe (integers: all <=2-word I3 values + representative 3-word values + small shift counts; rationals: Q(6,6) + integers; floats: F(10,2,3) / F(2,3,4) x 3 precisions) all applicable forms of a family must return the same normalised value, or all panic. non-trivial = at least two forms applicable".into();
+    ctx.rule = "the form table is generated from the rustdoc JSON of the tree (every impl of an operator / dashu_base ops trait on UBig, IBig, RBig, Relaxed, FBig and primitives: owned/borrowed operands, assign forms, mixed types); forms are grouped into families (operation, output type) and for EVERY ordered operand pair of the universe (integers: all <=2-word I3 values + representative 3-word values + small shift counts, and a shape universe of 3..11-word (thorough: ..75-word) operands x 5 word patterns x sign; rationals: Q(6,6) + integers; floats: F(10,2,3) / F(2,3,4) x 3 precisions) all applicable forms of a family must return the same normalised value, or all panic. non-trivial = at least two forms applicable".into();
     ctx.assume("two forms 'agree' when their results are equal as exact values (floats: value and precision; Relaxed: value); for extended gcd only g is compared (Bezout coefficients are not unique by specification)");
     let all10 = f10::forms();
     let all2 = f2::forms();
@@ -313,6 +313,25 @@ pub fn run(ctx: &mut Ctx) {
     ctx.bound("int_values", int_vals.len() as u64);
     let int_forms: Vec<&Form> = all10.iter().filter(|f| kind_of(f) == Kind::Int).collect();
     run_family_sweep(ctx, "int.forms", &int_forms, &int_vals, Kind::Int);
+
+    // shape universe: long operands of unequal length whose carries / borrows ripple through
+    // zero or all-ones words and whose length meets the other operand's buffer capacity
+    // (fresh capacity = len + len/8 + 2): the in-place forms differ from the allocating ones here
+    let lens: Vec<usize> = if ctx.tier == Tier::Quick { vec![3, 4, 5, 6, 7, 8, 9, 11] } else { (3..=24).chain([33, 34, 39, 65, 75]).collect() };
+    let mut shp: Vec<BigInt> = vec![];
+    for &l in &lens {
+        for pat in ["ones", "top1p1", "sparse", "topmax_low0", "lcgA"] {
+            let m = BigInt::from(shape(l, pat, 0));
+            shp.push(-m.clone());
+            shp.push(m);
+        }
+    }
+    shp.sort();
+    shp.dedup();
+    let shape_vals: Vec<Val> = shp.iter().map(|v| Val::Q(Rat::int(v.clone()))).collect();
+    ctx.bound("int_shape_values", shape_vals.len() as u64);
+    let shape_forms: Vec<&Form> = int_forms.iter().copied().filter(|f| !matches!(f.fam, "shl" | "shr")).collect();
+    run_family_sweep(ctx, "int.forms.shapes", &shape_forms, &shape_vals, Kind::Int);
 
     // rationals
     let qn: i64 = ctx.pick(6, 9);
@@ -466,5 +485,107 @@ fn hand_written(ctx: &mut Ctx, ints: &[BigInt]) {
         }
         rec.sample(case);
     });
+    clone_floats::<mode::HalfAway, 10>(ctx, "clone.FBig.B10");
+    clone_floats::<mode::Zero, 2>(ctx, "clone.FBig.B2");
+    clone_ratios(ctx);
     let _ = (BigInt::zero().to_i64(), RBig::ZERO);
+}
+
+/// clone_from onto any previous value (other precision, other length, other sign) must give a value
+/// indistinguishable from a fresh clone: same value, same precision, same ordering against probes,
+/// same results of further arithmetic, and independent of the source
+fn clone_floats<R: dashu_float::round::Round, const B: dashu_int::Word>(ctx: &mut Ctx, name: &str) {
+    let mut vals: Vec<(i64, i64, usize)> = vec![];
+    for s in [0i64, 1, -1, 5, 12, 99, 123456789, -987654321, 1 << 40] {
+        for e in [-3i64, 0, 5] {
+            for p in [0usize, 1, 3, 9, 20, 64] {
+                if p == 0 || digits_b(&BigInt::from(s), B as u32) <= p {
+                    vals.push((s, e, p));
+                }
+            }
+        }
+    }
+    let n = vals.len() as u64;
+    let vr = &vals;
+    let mkf = |&(s, e, p): &(i64, i64, usize)| FBig::<R, B>::from_repr(Repr::<B>::new(IBig::from(s), e as isize), Context::<R>::new(p));
+    ctx.sweep(name, n * n, |i, rec| {
+        let (a, b) = (mkf(&vr[(i / n) as usize]), mkf(&vr[(i % n) as usize]));
+        let case = || format!("{:?}.clone_from({:?})", vr[(i % n) as usize], vr[(i / n) as usize]);
+        rec.step();
+        let r = guard(|| {
+            let fresh = a.clone();
+            let mut t = b.clone();
+            t.clone_from(&a);
+            let same_repr = t.repr() == fresh.repr() && t.precision() == fresh.precision() && format!("{:?}", t) == format!("{:?}", fresh);
+            // same behaviour against probes: ordering and one arithmetic step
+            let mut same_behaviour = true;
+            for probe in vr.iter().step_by(5) {
+                let c = mkf(probe);
+                same_behaviour &= t.cmp(&c) == fresh.cmp(&c) && c.cmp(&t) == c.cmp(&fresh) && t.partial_cmp(&c) == fresh.partial_cmp(&c) && (t == c) == (fresh == c);
+                let (x, y) = (&t + &c, &fresh + &c);
+                same_behaviour &= x.repr() == y.repr() && x.precision() == y.precision();
+                let (x, y) = (&t * &c, &fresh * &c);
+                same_behaviour &= x.repr() == y.repr() && x.precision() == y.precision();
+            }
+            // independence: mutating the clone leaves the source alone
+            let before = format!("{:?}", a);
+            t += FBig::<R, B>::ONE;
+            let independent = format!("{:?}", a) == before;
+            (same_repr, same_behaviour, independent)
+        });
+        match r {
+            Ok((true, true, true)) => rec.hit("clone-indistinguishable"),
+            Ok(x) => rec.fail(format!("{}|FBig::clone_from|differs-from-clone|B{}", P, B), case(), format!("(same value+precision, same behaviour against probes, independent) = {:?}", x), "all true"),
+            Err(p) => rec.fail(format!("{}|FBig::clone_from|panic|B{}", P, B), case(), p, "no panic"),
+        }
+        if vr[(i / n) as usize].2 != vr[(i % n) as usize].2 {
+            rec.hit("different-precisions");
+        }
+        rec.nontrivial();
+        rec.sample(case);
+    });
+    ctx.require_classes(name, &["clone-indistinguishable", "different-precisions"]);
+}
+
+fn clone_ratios(ctx: &mut Ctx) {
+    let mut vals: Vec<(BigInt, BigInt)> = vec![];
+    let nums = [BigInt::zero(), BigInt::one(), BigInt::from(-7), BigInt::from(u64::MAX), -(BigInt::one() << 130u32) + 5, BigInt::from(shape(5, "lcgA", 0))];
+    let dens = [BigInt::one(), BigInt::from(3), BigInt::from(1u64 << 40), (BigInt::one() << 129u32) - 1, BigInt::from(shape(4, "lcgB", 0)) | BigInt::one()];
+    for nu in &nums {
+        for de in &dens {
+            vals.push((nu.clone(), de.clone()));
+        }
+    }
+    let n = vals.len() as u64;
+    let vr = &vals;
+    ctx.sweep("clone.RBig+Relaxed+UBig", n * n, |i, rec| {
+        let ((an, ad), (bn, bd)) = (&vr[(i / n) as usize], &vr[(i % n) as usize]);
+        let case = || format!("({}/{}).clone_from({}/{})", bn, bd, an, ad);
+        rec.step();
+        let r = guard(|| {
+            let (a, b) = (RBig::from_parts(ref_to_i(an), ref_to_u(ad.magnitude())), RBig::from_parts(ref_to_i(bn), ref_to_u(bd.magnitude())));
+            let (la, lb) = (Relaxed::from_parts(ref_to_i(an), ref_to_u(ad.magnitude())), Relaxed::from_parts(ref_to_i(bn), ref_to_u(bd.magnitude())));
+            let (ua, ub) = (ref_to_u(an.magnitude()), ref_to_u(bn.magnitude()));
+            let mut t = b.clone();
+            t.clone_from(&a);
+            let mut lt = lb.clone();
+            lt.clone_from(&la);
+            let mut ut = ub.clone();
+            ut.clone_from(&ua);
+            let same = t == a && t.numerator() == a.numerator() && t.denominator() == a.denominator() && lt == la && lt.numerator() == la.numerator() && lt.denominator() == la.denominator() && ut == ua && (&t + &b) == (&a + &b) && (&ut * &ub) == (&ua * &ub);
+            let before = (a.to_string(), la.to_string(), ua.to_string());
+            t += RBig::ONE;
+            lt += Relaxed::ONE;
+            ut += UBig::ONE;
+            (same, before == (a.to_string(), la.to_string(), ua.to_string()))
+        });
+        match r {
+            Ok((true, true)) => rec.hit("clone-indistinguishable"),
+            Ok(x) => rec.fail(format!("{}|RBig/Relaxed/UBig::clone_from|differs-from-clone|ratio", P), case(), format!("(same, independent) = {:?}", x), "all true"),
+            Err(p) => rec.fail(format!("{}|RBig/Relaxed/UBig::clone_from|panic|ratio", P), case(), p, "no panic"),
+        }
+        rec.nontrivial();
+        rec.sample(case);
+    });
+    ctx.require_classes("clone.RBig+Relaxed+UBig", &["clone-indistinguishable"]);
 }
